@@ -453,6 +453,22 @@ def check_rescale_baf(ck):
             ck.tie_break('model rescale_baf differs from the code', {'purity': p, 'baf': b}, code=float(c), model=m)
 
 
+def check_scan(ck, tables):
+    """the literal walk of absolute_threshold's for/else (Model/Threshold.v scan_row, exact quotient) == thr_cn on the
+    grid's rows (the theorem C02_scan_equiv says so for every input; this keeps the extracted code honest)"""
+    reqs = []
+    for cfg, rows in tables[::7]:
+        ts = DEFAULTS if cfg['thresholds'] is None else cfg['thresholds']
+        for row in rows[::5]:
+            v = row['log2']
+            reqs.append([None if isnan(v) else F(v), F(0) if isnan(v) else exp2(v), [F(t) for t in ts], cfg['ploidy'], row['r']])
+    got = vlib.model_batch_parallel('c02_scan', reqs)
+    for q, g in zip(reqs, got):
+        if isinstance(g, Err) or g[0] != g[1]:
+            raise RuntimeError('scan_row (literal loop) and thr_cn disagree on %r: %r' % (q, g))
+    ck.extra['scan_loop_points'] = len(reqs)
+
+
 def canonical_known(ck):
     """replay the canonical case of every open known finding of this property"""
     for kf in ck.known.get('open', []):
@@ -469,7 +485,12 @@ def canonical_known(ck):
 
 def load_corpus():
     p = os.path.join(vlib.VERIF, 'corpus', 'c02.json')
-    return json.load(open(p)) if os.path.exists(p) else []
+    return [c for c in (json.load(open(p)) if os.path.exists(p) else []) if c.get('stream') != 'do_call']
+
+
+def load_docall_corpus():
+    p = os.path.join(vlib.VERIF, 'corpus', 'c02.json')
+    return [c for c in (json.load(open(p)) if os.path.exists(p) else []) if c.get('stream') == 'do_call']
 
 
 def rows_from_json(cfg, rows):
@@ -527,13 +548,26 @@ def run(ck, scratch):
         check_tables(ck, tables[i:i + step], canonical=True)
     check_tables(ck, edge_tables(rng, 300 if quick else 5000), canonical=False)
     check_rescale_baf(ck)
+    check_scan(ck, tables)
+    # do_call end to end: purity rewrite, then the method on the rewritten log2, then the allelic split
+    import calldo
+    calldo.corpus(ck, load_docall_corpus())
+    calldo.stream(ck, 260 if quick else 4000, (0.7, 0.15, 0.15), 'docall')
+    ck.rule += ' || ' + calldo.RULE
     ck.unproved_remainder = [
         'that numpy 2**v is within 1e-12 of the real function is trusted (RealFacts proves the real-function contracts, including '
         '3/2 < 2^(7/10); the harness supplies the library values to the model as exact rationals)',
         'rows where r*2^log2 lies within 1e-7 (relative) of an integer, or cn*upper_baf within 1e-7 of j+1/2, are counted '
         'float_ambiguous when code and exact arithmetic round differently',
-        'the purity-adjusted threshold path (log2 rewritten by the C01 path before thresholding, BAF rescaled from a VariantArray) '
-        'is covered by C01 for the rewrite and by rescale_baf here; the composition is not compared end to end',
+        'do_call end to end (Model/Baf.v do_call_model, theorems C02_do_call_threshold / C02_purity_then_threshold): on the purity-adjusted '
+        'path the model is given v2 = np.log2(q) and e2 = 2**v2 for ITS OWN rewritten ratio q (library values, second model pass); a row whose '
+        'v2 lies within 1e-9 of a threshold, or whose r*e2 lies within 1e-7 of an integer above the last threshold, is float-ambiguous',
+        'outside do_call_model: the filters= argument (segfilters, C14), the content of variants.baf_by_ranges (C18; its values are taken from '
+        'the code and fed to the model), sort_columns; a NaN log2 under method=clonal (IntCastingNaNError / undefined cast) is outside the model',
+        'source ties: rescale_baf, _reference_copies_pure and the allelic split of do_call (C02_source_alleles) are translated from the '
+        'source on every run; absolute_threshold\'s loop is outside the function-body translator and is tied by a hand transcription '
+        '(scan_row, C02_scan_equiv) whose statements are pinned verbatim in tools/genspecs/c01.py; Python\'s float division int/int enters as '
+        'an oracle with the correctly-rounded contract (fdiv_contract), not as a bit-exact model',
     ]
 
 
@@ -543,6 +577,13 @@ def replay(ck, body):
     if not cfg or not rows:
         print('replay: no case in file (%s)' % body.get('what'))
         return 0
+    if case.get('stream') == 'do_call':
+        import calldo
+        calldo.replay_case(ck, case)
+        bad = bool(ck.violations or ck.tie_breaks)
+        what = [v[1] for v in ck.violations] + [t[0] for t in ck.tie_breaks]
+        print('replay: %s' % (('still failing: %s' % what) if bad else 'passes now'))
+        return 1 if bad else 0
     cfg = dict(cfg)
     if cfg['thresholds'] is not None:
         cfg['thresholds'] = tuple(cfg['thresholds'])
